@@ -6,13 +6,15 @@ What is proved here is the repository's own logic (`libs/db`): the reference ord
 libraries: they are tied to the reference ONLY by the correspondence run (`bin/check C19`).
 
   C19Order : `bytes.Compare` is a strict total order; `IsKeyInDomain` = the documented ranges;
-             `prefix_range_statement` (keys with prefix p = [p, cpIncr p)) is FALSE of the code
-             (`prefix_range_counterexample`, finding cpincr-prefix-overrun); true for `PrefixToEnd`
-             (`prefix_range_prefixToEnd`) and for prefixes not ending in 0xff (`prefix_range_partial`).
+             `prefix_range` (keys with prefix p = [p, PrefixToEnd p), every prefix); `cpDecr_lt`.
   C19Ref   : reference laws (`Ref.get_set`, `Ref.get_del`, sortedness, `Ref.iter_spec`, `Ref.riter_spec`),
              `batch_atomic_ordered`, `reset_abandons`, `memdb_iter_spec`, `memdb_riter_spec`,
              `memdb_refines_ref` (any op sequence, by simulation).
-  here     : prefixed views.
+  here     : prefixed views (`prefixdb_refines`: lookups, writes, forward and reverse iteration),
+             `IteratePrefix`/`NewIteratorWithPrefix`, and `backends_agree` for the four backend models.
+All five findings of the first round (cpIncr overrun, goleveldb Load/Exist, badger empty reverse start, sharded
+duplicates, badger batch reuse) are repaired in the repository; their counterexample theorems are gone and the
+full statements are proved.
 -/
 import LinkVerif.Model.KV
 import LinkVerif.Props.C19Order
@@ -86,42 +88,457 @@ theorem prefixdb_isolated (p : Bytes) (m : Ref) (k v k' : Bytes) (h : hasPrefix 
   · show Ref.get (Ref.del m (p ++ k)) k' = _
     rw [Ref.get_del]; simp [hne]
 
-/-- FULL STATEMENT (iteration): every iteration of a view equals the iteration of the restricted, stripped
-reference with the same bounds -/
+/-! ### iteration through a view -/
+
+theorem prefixed_lt_end {p k u : Bytes} (hp : hasPrefix p k = true) (hu : prefixToEnd p = some u) : blt k u = true := by
+  have h := (prefix_range_prefixToEnd p k).mp hp
+  rw [hu] at h
+  exact h.2
+
+theorem end_no_prefix {p u : Bytes} (hu : prefixToEnd p = some u) : hasPrefix p u = false := by
+  cases h : hasPrefix p u with
+  | false => rfl
+  | true => have := prefixed_lt_end h hu; rw [blt_irrefl] at this; cases this
+
+/-- a key at or above `p` without the prefix lies at or above `PrefixToEnd p` -/
+theorem no_prefix_ge {p k : Bytes} (hle : ble p k = true) (hnp : hasPrefix p k = false) :
+    ∃ u, prefixToEnd p = some u ∧ ble u k = true := by
+  have h := prefix_range_prefixToEnd p k
+  cases hu : prefixToEnd p with
+  | none =>
+    rw [hu] at h
+    have := h.mpr ⟨hle, trivial⟩
+    rw [hnp] at this; cases this
+  | some u =>
+    refine ⟨u, rfl, ?_⟩
+    rw [hu] at h
+    unfold ble
+    cases hb : blt k u with
+    | false => rfl
+    | true => have := h.mpr ⟨hle, hb⟩; rw [hnp] at this; cases this
+
+theorem ble_append_left (p a b : Bytes) : ble (p ++ a) (p ++ b) = ble a b := by
+  unfold ble; rw [blt_append_left]
+
+theorem prefix_ble {p k : Bytes} (hp : hasPrefix p k = true) : ble p k = true :=
+  ((prefix_range_prefixToEnd p k).mp hp).1
+
+/-- the forward bound translation is exact: a store key is in the translated range iff it carries the prefix and its
+remainder is in the requested range -/
+theorem inFwd_pfx (p k : Bytes) (s e : Bound) :
+    inFwd k (pfxBoundsFwd p s e).1 (pfxBoundsFwd p s e).2 = (hasPrefix p k && inFwd (k.drop p.length) s e) := by
+  cases hp : hasPrefix p k with
+  | true =>
+    obtain ⟨t, rfl⟩ := (hasPrefix_iff p k).mp hp
+    simp only [Bool.true_and, List.drop_left, pfxBoundsFwd, inFwd, bval, Option.getD_some, ble_append_left]
+    cases e with
+    | some e' => simp only [blt_append_left]
+    | none =>
+      cases hu : prefixToEnd p with
+      | none => rfl
+      | some u => simp only [prefixed_lt_end hp hu]
+  | false =>
+    simp only [Bool.false_and]
+    cases hL : inFwd k (pfxBoundsFwd p s e).1 (pfxBoundsFwd p s e).2 with
+    | false => rfl
+    | true =>
+      exfalso
+      simp only [pfxBoundsFwd, inFwd, bval, Option.getD_some, Bool.and_eq_true] at hL
+      have hle : ble p k = true := ble_trans (ble_append_right p _) hL.1
+      obtain ⟨u, hu, huk⟩ := no_prefix_ge hle hp
+      have hlt : blt k u = true := by
+        cases e with
+        | none => have := hL.2; simp only [hu] at this; exact this
+        | some e' =>
+          have h1 : blt k (p ++ e') = true := hL.2
+          exact blt_trans h1 (prefixed_lt_end ((hasPrefix_iff p _).mpr ⟨e', rfl⟩) hu)
+      unfold ble at huk
+      rw [hlt] at huk; cases huk
+
+theorem takeWhile_all {α : Type} (P : α → Bool) (l : List α) (h : ∀ x ∈ l, P x = true) : l.takeWhile P = l := by
+  induction l with
+  | nil => rfl
+  | cons x xs ih =>
+    rw [List.takeWhile_cons, h x List.mem_cons_self]
+    simp only [if_true]
+    rw [ih (fun y hy => h y (List.mem_cons_of_mem _ hy))]
+
+/-- PREFIXDB REFINES (forward iteration): `PrefixDB(p).Iterator(s, e)` over ANY store content and ANY prefix yields
+exactly the iteration of the reference restricted to the prefix, prefix stripped, with the same bounds -/
+theorem prefixdb_iter_refines (p : Bytes) (m : Ref) (s e : Bound) :
+    pfxIter refI m p s e = Ref.iter (restrict p m) s e := by
+  show (List.takeWhile (fun kv => hasPrefix p kv.1)
+        (m.filter (fun kv => inFwd kv.1 (pfxBoundsFwd p s e).1 (pfxBoundsFwd p s e).2))).map (strip p)
+      = ((m.filter (fun kv => hasPrefix p kv.1)).map (strip p)).filter (fun kv => inFwd kv.1 s e)
+  rw [takeWhile_all]
+  · rw [List.filter_map, List.filter_filter]
+    congr 1
+    apply List.filter_congr
+    intro kv _
+    simp only [Function.comp, strip, inFwd_pfx, Bool.and_comm]
+  · intro kv hkv
+    have := (List.mem_filter.mp hkv).2
+    rw [inFwd_pfx] at this
+    exact (Bool.and_eq_true _ _ ▸ this).1
+
+/-- `NewIteratorWithPrefix` of a view is the view's iterator on `[q, PrefixToEnd q)` -/
+theorem prefixdb_prefixIter_refines (p : Bytes) (m : Ref) (q : Bound) :
+    pfxPrefixIter refI m p q = prefixIter refI (restrict p m) q := prefixdb_iter_refines p m q _
+
+/-! reverse -/
+
+/-- the bounds `PrefixDB.ReverseIterator` hands down -/
+def revStartB (p : Bytes) (s : Bound) : Bound := match s with | none => prefixToEnd p | some s' => some (p ++ s')
+def revEndB (p : Bytes) (e : Bound) : Bound := match e with | none => cpDecrCore p | some e' => some (p ++ e')
+
+theorem pfxBoundsRev_eq {p : Bytes} {s e : Bound} {ps pe : Bound} (h : pfxBoundsRev p s e = some (ps, pe)) :
+    ps = revStartB p s ∧ pe = revEndB p e := by
+  unfold pfxBoundsRev at h
+  unfold revStartB revEndB
+  cases e with
+  | some e' => simp only [Option.some.injEq, Prod.mk.injEq] at h; exact ⟨h.1.symm, h.2.symm⟩
+  | none =>
+    simp only [cpDecr] at h
+    cases hpe : p.isEmpty with
+    | true => simp [hpe] at h
+    | false =>
+      simp only [hpe, Bool.false_eq_true, if_false, Option.map_some, Option.some.injEq, Prod.mk.injEq] at h
+      exact ⟨h.1.symm, h.2.symm⟩
+
+theorem inRev_split (k : Bytes) (a b : Bound) : inRev k a b = (inRev k a none && inRev k none b) := by
+  unfold inRev
+  cases a <;> cases b <;> simp
+
+theorem revStart_pfx (p t : Bytes) (s : Bound) : inRev (p ++ t) (revStartB p s) none = inRev t s none := by
+  have hpt : hasPrefix p (p ++ t) = true := (hasPrefix_iff p _).mpr ⟨t, rfl⟩
+  unfold revStartB
+  cases s with
+  | some s' => simp only [inRev, ble_append_left]
+  | none =>
+    cases hu : prefixToEnd p with
+    | none => rfl
+    | some u => simp only [inRev, (ble_iff _ _).mpr (Or.inl (prefixed_lt_end hpt hu))]
+
+theorem revEnd_pfx (p t : Bytes) (e : Bound) : inRev (p ++ t) none (revEndB p e) = inRev t none e := by
+  unfold revEndB
+  cases e with
+  | some e' => simp only [inRev, blt_append_left]
+  | none =>
+    cases hd : cpDecrCore p with
+    | none => rfl
+    | some d => simp only [inRev, blt_of_blt_of_ble (cpDecr_lt hd) (ble_append_right p t)]
+
+/-- the reverse bound translation is exact on keys that carry the prefix -/
+theorem inRev_pfx {p : Bytes} (t : Bytes) (s e : Bound) {ps pe : Bound} (h : pfxBoundsRev p s e = some (ps, pe)) :
+    inRev (p ++ t) ps pe = inRev t s e := by
+  obtain ⟨h1, h2⟩ := pfxBoundsRev_eq h
+  rw [h1, h2, inRev_split, revStart_pfx, revEnd_pfx, ← inRev_split]
+
+/-- once a descending walk has left the prefix it never comes back: `takeWhile` = `filter` -/
+theorem takeWhile_eq_filter_of_mono {α : Type} (P : α → Bool) (R : α → α → Prop) (l : List α) (hp : l.Pairwise R)
+    (hm : ∀ a b, a ∈ l → b ∈ l → R a b → P b = true → P a = true) : l.takeWhile P = l.filter P := by
+  induction l with
+  | nil => rfl
+  | cons x xs ih =>
+    rw [List.pairwise_cons] at hp
+    have ih' := ih hp.2 (fun a b ha hb => hm a b (List.mem_cons_of_mem _ ha) (List.mem_cons_of_mem _ hb))
+    cases hx : P x with
+    | true => simp [List.takeWhile_cons, List.filter_cons, hx, ih']
+    | false =>
+      have : xs.filter P = [] := by
+        rw [List.filter_eq_nil_iff]
+        intro y hy hPy
+        have := hm x y List.mem_cons_self (List.mem_cons_of_mem _ hy) (hp.1 y hy) hPy
+        rw [hx] at this; cases this
+      simp [List.takeWhile_cons, List.filter_cons, hx, this]
+
+def Desc (l : List KV) : Prop := l.Pairwise (fun a b => blt b.1 a.1 = true)
+
+theorem skipOne_sublist (l : List KV) (sk : Bound) : (skipOne l sk).Sublist l := by
+  cases l with
+  | nil => exact List.Sublist.refl _
+  | cons x xs =>
+    simp only [skipOne]
+    split
+    · exact List.sublist_cons_self x xs
+    · exact List.Sublist.refl _
+
+/-- PREFIXDB REFINES (reverse iteration): for a non-empty prefix and a sorted store, `PrefixDB(p).ReverseIterator(s, e)`
+yields exactly the reverse iteration of the restricted, stripped reference with the same bounds (the source starts
+at `PrefixToEnd p`, that key is skipped, and the walk stops at the first key below the prefix) -/
+theorem prefixdb_riter_refines (p : Bytes) (m : Ref) (s e : Bound) (hs : Sorted m) (hp : p ≠ []) :
+    pfxRIter refI m p s e = some (Ref.riter (restrict p m) s e) := by
+  obtain ⟨ps, pe, hb⟩ : ∃ ps pe, pfxBoundsRev p s e = some (ps, pe) := by
+    unfold pfxBoundsRev cpDecr
+    cases p with
+    | nil => exact absurd rfl hp
+    | cons x xs => cases e <;> simp
+  have hps : ps = revStartB p s := (pfxBoundsRev_eq hb).1
+  unfold pfxRIter
+  rw [hb]
+  simp only [Option.map_some, Option.some.injEq]
+  -- the drained source
+  let R : List KV := (m.filter (fun kv => inRev kv.1 ps pe)).reverse
+  have hRdef : refI.riter m ps pe = R := rfl
+  rw [hRdef]
+  have hdesc : Desc R := by
+    show List.Pairwise _ (List.reverse _)
+    rw [List.pairwise_reverse]
+    exact List.Pairwise.filter _ hs
+  have hmemR : ∀ a ∈ R, inRev a.1 ps pe = true := by
+    intro a ha
+    have : a ∈ m.filter (fun kv => inRev kv.1 ps pe) := List.mem_reverse.mp ha
+    exact (List.mem_filter.mp this).2
+  -- the source after skipOne
+  let R' : List KV := if s.isNone then skipOne R (prefixToEnd p) else R
+  have hsub : R'.Sublist R := by
+    show (if s.isNone then skipOne R (prefixToEnd p) else R).Sublist R
+    split
+    · exact skipOne_sublist _ _
+    · exact List.Sublist.refl _
+  have hdesc' : Desc R' := List.Pairwise.sublist hsub hdesc
+  -- (F1) the skipped key carries no prefix
+  have hF1 : R'.filter (fun kv => hasPrefix p kv.1) = R.filter (fun kv => hasPrefix p kv.1) := by
+    show (if s.isNone then skipOne R (prefixToEnd p) else R).filter _ = _
+    split
+    · cases hR : R with
+      | nil => rfl
+      | cons x xs =>
+        simp only [skipOne]
+        split
+        · rename_i heq
+          have hx : x.1 = bval (prefixToEnd p) := by simpa using heq
+          have hnp : hasPrefix p x.1 = false := by
+            rw [hx]
+            cases hu : prefixToEnd p with
+            | some u => exact end_no_prefix hu
+            | none =>
+              cases p with
+              | nil => exact absurd rfl hp
+              | cons y ys => rfl
+          simp [List.filter_cons, hnp]
+        · rfl
+    · rfl
+  -- (F2) every remaining key is strictly below PrefixToEnd p
+  have hF2 : ∀ a ∈ R', ∀ u, prefixToEnd p = some u → blt a.1 u = true := by
+    intro a ha u hu
+    cases s with
+    | some s' =>
+      have haR : a ∈ R := hsub.subset ha
+      have h1 := hmemR a haR
+      rw [hps] at h1
+      simp only [revStartB, inRev, Bool.and_eq_true] at h1
+      exact blt_of_ble_of_blt h1.1 (prefixed_lt_end ((hasPrefix_iff p _).mpr ⟨s', rfl⟩) hu)
+    | none =>
+      have hps' : ps = some u := by rw [hps]; exact hu
+      have hle : ∀ b ∈ R, ble b.1 u = true := by
+        intro b hb'
+        have h1 := hmemR b hb'
+        rw [hps'] at h1
+        simp only [inRev, Bool.and_eq_true] at h1
+        exact h1.1
+      have hR' : R' = skipOne R (some u) := by
+        show (if (none : Bound).isNone then skipOne R (prefixToEnd p) else R) = _
+        simp [hu]
+      rw [hR'] at ha
+      cases hR : R with
+      | nil => rw [hR] at ha; simp [skipOne] at ha
+      | cons x xs =>
+        rw [hR] at ha
+        have hdx : Desc (x :: xs) := hR ▸ hdesc
+        unfold Desc at hdx
+        rw [List.pairwise_cons] at hdx
+        have hxle : ble x.1 u = true := hle x (by rw [hR]; exact List.mem_cons_self)
+        simp only [skipOne, bval, Option.getD_some] at ha
+        by_cases heq : x.1 = u
+        · have : (x.1 == u) = true := by simp [heq]
+          simp only [this, if_true] at ha
+          rw [← heq]; exact hdx.1 a ha
+        · have : (x.1 == u) = false := by simp [heq]
+          simp only [this, Bool.false_eq_true, if_false] at ha
+          have hxlt : blt x.1 u = true := by
+            rcases (ble_iff _ _).mp hxle with h | h
+            · exact h
+            · exact absurd h heq
+          rcases List.mem_cons.mp ha with rfl | ha'
+          · exact hxlt
+          · exact blt_trans (hdx.1 a ha') hxlt
+  -- takeWhile = filter on R'
+  have hT : R'.takeWhile (fun kv => hasPrefix p kv.1) = R'.filter (fun kv => hasPrefix p kv.1) := by
+    have hd'' : R'.Pairwise (fun a b => blt b.1 a.1 = true) := hdesc'
+    apply takeWhile_eq_filter_of_mono _ (fun a b => blt b.1 a.1 = true) _ hd''
+    intro a b ha _ hba hPb
+    cases hPa : hasPrefix p a.1 with
+    | true => rfl
+    | false =>
+      exfalso
+      have hpa : ble p a.1 = true := ble_trans (prefix_ble hPb) ((ble_iff _ _).mpr (Or.inl hba))
+      obtain ⟨u, hu, hua⟩ := no_prefix_ge hpa hPa
+      have := hF2 a ha u hu
+      unfold ble at hua
+      rw [this] at hua; cases hua
+  show prefixTake p R' = Ref.riter (restrict p m) s e
+  unfold prefixTake
+  rw [hT, hF1]
+  show (List.filter (fun kv => hasPrefix p kv.1) (m.filter (fun kv => inRev kv.1 ps pe)).reverse).map (strip p)
+      = (((m.filter (fun kv => hasPrefix p kv.1)).map (strip p)).filter (fun kv => inRev kv.1 s e)).reverse
+  rw [List.filter_reverse, List.map_reverse, List.filter_map, List.filter_filter, List.filter_filter]
+  congr 2
+  apply List.filter_congr
+  intro kv _
+  cases hP : hasPrefix p kv.1 with
+  | false => simp
+  | true =>
+    obtain ⟨t, ht⟩ := (hasPrefix_iff p kv.1).mp hP
+    simp only [Function.comp, strip, ht, List.drop_left, inRev_pfx t s e hb, Bool.true_and, Bool.and_true]
+
+/-- FULL STATEMENT (now proved): every operation of a view - lookups, writes, forward and reverse iteration with any
+bounds - equals the same operation on the reference restricted to the prefix with the prefix stripped -/
 def prefixdb_refines_statement : Prop :=
-  ∀ (p : Bytes) (m : Ref) (s e : Bound), p ≠ [] → Sorted m →
-    pfxIter refI m p s e = some (Ref.iter (restrict p m) s e) ∧
+  ∀ (p : Bytes) (m : Ref) (s e : Bound) (k : Bytes), p ≠ [] → Sorted m →
+    (pfxI refI p).get m k = Ref.get (restrict p m) k ∧
+    pfxIter refI m p s e = Ref.iter (restrict p m) s e ∧
     pfxRIter refI m p s e = some (Ref.riter (restrict p m) s e)
 
-/-- FALSE of the current code (finding cpincr-prefix-overrun): prefix 66ff, store {66ff01, 67}: the reverse
-iterator of the view starts at cpIncr(66ff) = 6700, meets key 67 first (no prefix) and ends at once, although
-the view contains key 01 -/
-theorem prefixdb_refines_counterexample : ¬ prefixdb_refines_statement := by
-  intro h
-  have := (h [0x66, 0xff] [([0x66, 0xff, 0x01], [0x01]), ([0x67], [0x02])] none none (by decide) (by unfold Sorted; decide)).2
-  revert this
-  decide
+theorem prefixdb_refines : prefixdb_refines_statement :=
+  fun p m s e k hp hs => ⟨prefixdb_lookup_refines p m k, prefixdb_iter_refines p m s e, prefixdb_riter_refines p m s e hs hp⟩
 
-/-- the same store seen through `IteratePrefix`: key 67 is listed under prefix 66ff -/
-theorem iteratePrefix_overrun :
-    iteratePrefix refI [([0x66, 0xff], [0x01]), ([0x67], [0x02])] [0x66, 0xff] = [([0x66, 0xff], [0x01]), ([0x67], [0x02])] := by
-  decide
+/-! ### `IteratePrefix`, `NewIteratorWithPrefix` on a store -/
 
-/-- ... while the adapters' `NewIteratorWithPrefix` (built on `PrefixToEnd`) is right on it -/
+/-- `IteratePrefix(db, p)` lists exactly the entries whose key starts with `p` (every prefix, 0xff tails included) -/
+theorem iteratePrefix_spec (m : Ref) (p : Bytes) : iteratePrefix refI m p = m.filter (fun kv => hasPrefix p kv.1) := by
+  unfold iteratePrefix
+  cases p with
+  | nil =>
+    show Ref.iter m none none = _
+    unfold Ref.iter
+    apply List.filter_congr
+    intro kv _
+    simp [inFwd, hasPrefix, bval, nil_ble]
+  | cons x xs =>
+    show Ref.iter m (some (x :: xs)) (prefixToEnd (x :: xs)) = _
+    unfold Ref.iter
+    apply List.filter_congr
+    intro kv _
+    have h := prefix_range_prefixToEnd (x :: xs) kv.1
+    simp only [inFwd, bval, Option.getD_some]
+    cases hP : hasPrefix (x :: xs) kv.1 with
+    | true =>
+      have := h.mp hP
+      cases hu : prefixToEnd (x :: xs) with
+      | none => simp [this.1]
+      | some u => rw [hu] at this; simp [this.1, this.2]
+    | false =>
+      cases hL : (ble (x :: xs) kv.1 && match prefixToEnd (x :: xs) with | none => true | some e' => blt kv.1 e') with
+      | false => rfl
+      | true =>
+        exfalso
+        simp only [Bool.and_eq_true] at hL
+        have : hasPrefix (x :: xs) kv.1 = true := by
+          apply h.mpr
+          refine ⟨hL.1, ?_⟩
+          cases hu : prefixToEnd (x :: xs) with
+          | none => trivial
+          | some u => have := hL.2; rw [hu] at this; exact this
+        rw [hP] at this; cases this
+
+/-- the witness store of the repaired finding: key 67 is no longer listed under prefix 66ff -/
+example : iteratePrefix refI [([0x66, 0xff], [0x01]), ([0x67], [0x02])] [0x66, 0xff] = [([0x66, 0xff], [0x01])] := by decide
+example : pfxRIter refI [([0x66, 0xff, 0x01], [0x01]), ([0x67], [0x02])] [0x66, 0xff] none none = some [([0x01], [0x01])] := by decide
 example : prefixIter refI [([0x66, 0xff], [0x01]), ([0x67], [0x02])] (some [0x66, 0xff]) = [([0x66, 0xff], [0x01])] := by decide
-
-/-- PARTIAL: bound translation of the forward iterator (what `ptrans` ties to the code): the underlying range
-is `[p ++ start, p ++ end)` resp. `[p ++ start, cpIncr p)`, and order under a common prefix is the order of the
-remainders, so a key `p ++ k` is in the translated range iff `k` is in the requested one (given bound) -/
-theorem pfx_fwd_bounds_exact (p k : Bytes) (s : Bound) (e : Bytes) :
-    (pfxBoundsFwd p s (some e)).map (fun (ps, pe) => inFwd (p ++ k) ps pe) = some (inFwd k s (some e)) := by
-  simp only [pfxBoundsFwd, Option.map_some, inFwd, bval, Option.getD_some, ble, blt_append_left]
-
 example : pfxIter refI [([0x61, 0x01], [0x01]), ([0x61, 0x02], [0x02]), ([0x62], [0x03])] [0x61] none none
-    = some [([0x01], [0x01]), ([0x02], [0x02])] := by decide
+    = [([0x01], [0x01]), ([0x02], [0x02])] := by decide
 example : pfxRIter refI [([0x61, 0x01], [0x01]), ([0x61, 0x02], [0x02]), ([0x62], [0x03])] [0x61] none none
     = some [([0x02], [0x02]), ([0x01], [0x01])] := by decide
-/-- an empty prefix panics on a nil end bound (`cpIncr` contract), as the code does -/
-example : pfxIter refI [] [] none none = none := by decide
+/-- an empty prefix still panics in `ReverseIterator(_, nil)` (`cpDecr` contract), forward iteration no longer does -/
+example : pfxRIter refI [] [] none none = none ∧ pfxIter refI [([1], [1])] [] none none = [([1], [1])] := by decide
+
+/-! ## all backend models agree -/
+
+/-- badger's born-invalid reverse iterator IS the reference answer whenever the store holds no empty key
+(badger cannot hold one: `Set` of an empty key is ignored) -/
+theorem bdg_riter_eq_ref {m : Ref} (hs : Sorted m) (h0 : Ref.get m [] = none) (s e : Bound) :
+    bdgI.riter m s e = Ref.riter m s e := by
+  show (match s with | some [] => [] | _ => Ref.riter m s e) = Ref.riter m s e
+  split
+  · symm
+    unfold Ref.riter
+    rw [List.reverse_eq_nil_iff, List.filter_eq_nil_iff]
+    intro kv hkv hin
+    simp only [inRev, Bool.and_eq_true] at hin
+    have hk : kv.1 = [] := by
+      rcases (ble_iff _ _).mp hin.1 with h | h
+      · rw [blt_nil_right] at h; cases h
+      · exact h
+    have : Ref.get m kv.1 = some kv.2 := Ref.get_of_mem hs hkv
+    rw [hk, h0] at this; cases this
+  · rfl
+
+/-- an op that never writes the empty key (bolt and badger reject it: generator exclusion) -/
+def Op.noEmptyKey : Op → Prop
+  | .set k _ => k ≠ []
+  | .write b => ∀ op ∈ b, match op with | .set k _ => k ≠ [] | .del _ => True
+  | _ => True
+
+theorem batchEffect_noEmpty (b : List BOp)
+    (hb : ∀ op ∈ b, match op with | .set k _ => k ≠ [] | .del _ => True) : batchEffect b [] none = none := by
+  unfold batchEffect
+  induction b with
+  | nil => rfl
+  | cons o os ih =>
+    simp only [List.foldl_cons]
+    have ho := hb o List.mem_cons_self
+    have hos : ∀ op ∈ os, match op with | .set k _ => k ≠ [] | .del _ => True :=
+      fun op h => hb op (List.mem_cons_of_mem _ h)
+    cases o with
+    | set k v =>
+      have hk : k ≠ [] := ho
+      simp only [hk, if_false]; exact ih hos
+    | del k => by_cases hk : k = [] <;> simp only [hk, if_true, if_false] <;> exact ih hos
+
+theorem bdg_run_eq_ref {m : Ref} (hs : Sorted m) (h0 : Ref.get m [] = none) (ops : List Op)
+    (hops : ∀ op ∈ ops, op.noEmptyKey) : runI bdgI m ops = runI refI m ops := by
+  induction ops generalizing m with
+  | nil => rfl
+  | cons op rest ih =>
+    have hrest : ∀ o ∈ rest, o.noEmptyKey := fun o ho => hops o (List.mem_cons_of_mem _ ho)
+    have hop := hops op List.mem_cons_self
+    cases op with
+    | set k v =>
+      show Out.unit :: runI bdgI (Ref.set m k v) rest = Out.unit :: runI refI (Ref.set m k v) rest
+      rw [ih (Ref.set_sorted hs k v) (by rw [Ref.get_set]; simp [Op.noEmptyKey] at hop; simp [hop, h0]) hrest]
+    | del k =>
+      show Out.unit :: runI bdgI (Ref.del m k) rest = Out.unit :: runI refI (Ref.del m k) rest
+      rw [ih (Ref.del_sorted hs k) (by rw [Ref.get_del]; by_cases hk : k = [] <;> simp [hk, h0]) hrest]
+    | get k => show Out.val (Ref.get m k) :: runI bdgI m rest = Out.val (Ref.get m k) :: runI refI m rest; rw [ih hs h0 hrest]
+    | has k => show Out.bool (Ref.get m k).isSome :: runI bdgI m rest = Out.bool (Ref.get m k).isSome :: runI refI m rest; rw [ih hs h0 hrest]
+    | iter s e => show Out.kvs (Ref.iter m s e) :: runI bdgI m rest = Out.kvs (Ref.iter m s e) :: runI refI m rest; rw [ih hs h0 hrest]
+    | riter s e =>
+      show Out.kvs (bdgI.riter m s e) :: runI bdgI m rest = Out.kvs (Ref.riter m s e) :: runI refI m rest
+      rw [ih hs h0 hrest, bdg_riter_eq_ref hs h0]
+    | write b =>
+      have hw : writeBatch bdgI m b = writeBatch refI m b := by
+        unfold writeBatch
+        congr 1
+      show Out.unit :: runI bdgI (writeBatch bdgI m b) rest = Out.unit :: runI refI (writeBatch refI m b) rest
+      rw [hw]
+      have h0' : Ref.get (writeBatch refI m b) [] = none := by
+        rw [(batch_atomic_ordered m b []).2, h0]
+        exact batchEffect_noEmpty b hop
+      rw [ih (writeBatch_sorted hs b) h0' hrest]
+
+/-- ALL BACKENDS AGREE (models): for any op sequence that never writes the empty key, the memdb model, the goleveldb
+model, the bolt model (= the reference) and the badger model give the same answers.  (For the external engines
+themselves this is what the correspondence run checks.) -/
+theorem backends_agree (ops : List Op) (hops : ∀ op ∈ ops, op.noEmptyKey) :
+    runI memI ⟨[]⟩ ops = runI refI [] ops ∧ runI ldbI [] ops = runI refI [] ops ∧ runI bdgI [] ops = runI refI [] ops :=
+  ⟨memdb_refines_ref ops, rfl, bdg_run_eq_ref (by simp [Sorted]) rfl ops hops⟩
+
+/-- what a batch object holds after Write: kept by memBatch/goleveldb (a second Write applies it again), empty on
+bolt/badger; after `Reset` it is empty everywhere, so Write-Reset-reuse agrees on all backends -/
+theorem batch_after_write (ops : List BOp) :
+    batchAfterWrite .keeps ops = ops ∧ batchAfterWrite .empty ops = [] := ⟨rfl, rfl⟩
+
+example : runI bdgI [] [.set [1] [1], .riter (some []) none, .riter none none] = [.unit, .kvs [], .kvs [([1], [1])]] := by decide
 
 end Props.C19
